@@ -35,6 +35,7 @@ RateMonitoring::RateMonitoring()
 : windowSize_(0),
   lastPeriod_(),
   lastDuration_(Duration::zero()),
+  mutex_(),
   periods_(),
   periodsSum_(0),
   rate_(0)
@@ -53,6 +54,7 @@ RateMonitoring::RateMonitoring(const RateMonitoring & rateMonitoring)
 : windowSize_(rateMonitoring.windowSize_),
   lastPeriod_(rateMonitoring.lastPeriod_),
   lastDuration_(rateMonitoring.lastDuration_.load()),
+  mutex_(),
   periods_(rateMonitoring.periods_),
   periodsSum_(rateMonitoring.periodsSum_),
   rate_(rateMonitoring.rate_.load())
@@ -72,6 +74,7 @@ void RateMonitoring::initialize(const double & expectedRate)
 double RateMonitoring::update(const Duration & duration)
 {
   assert(windowSize_ != 0);
+  std::lock_guard<std::mutex> lock(mutex_);
 
   lastPeriod_ = duration - lastDuration_.load();
   long long int lastPeriodInNanoSecond = durationToNanoSecond(lastPeriod_);
@@ -99,6 +102,7 @@ double RateMonitoring::getRate()const
 //-----------------------------------------------------------------------------
 bool RateMonitoring::timeout(const Duration & duration)
 {
+  std::lock_guard<std::mutex> lock(mutex_);
   if (!periods_.empty() &&
     durationToSecond(duration - lastDuration_.load()) > 0.5)
   {
